@@ -7,8 +7,6 @@ references remapped).  union: the output is recomputed from the raw rows of `sel
 A=subset(S+X), B=subset(S+Y) of one tree sequence the union must canonicalise to the same bytes as
 the original in the same node order.
 """
-import os
-
 from hypothesis import strategies as st
 
 from .. import gen, model
@@ -24,7 +22,8 @@ META = dict(
     "ancestor-closed, empty or everything), the other nodes split into X and Y along connected "
     "components of the edge graph without S (nodes sharing an individual stay together, individual "
     "parent links that cannot survive the split are removed at generation time), A=subset(S+X) and "
-    "B=subset(S+Y) in drawn node orders, optionally one row of the shared part edited on one side, x "
+    "B=subset(S+Y) in drawn node orders, optionally one row of the shared part edited on one side (or two "
+    "shared nodes of different age exchanged in the node mapping), x "
     "check_shared_equality x add_populations; the result is recomputed from the rows of A and B, "
     "refusal is required exactly when the shared part was edited and the check is on, `other` must be "
     "unchanged, and without an edit (add_populations=False, populations not reordered) "
@@ -38,6 +37,9 @@ META = dict(
         "node references (documentation and implementation disagree on it); rows appended by union are "
         "identified through the references of the new nodes",
         "individual parent links form no cycle in union cases (canonicalise refuses pedigree cycles)",
+        "open finding union.unknown_mutation_times_parent_after_child is excluded only when union raises "
+        "TSK_ERR_MUTATION_PARENT_AFTER_CHILD and the case has an unknown-time mutation on a node of self "
+        "whose parent mutation sits on a node contributed only by other (label predicted:parent_after_child)",
         "mutation order inside a site after union is compared as a multiset plus validity of the result "
         "and equality of the mutation parents with the positional model",
     ],
@@ -297,28 +299,55 @@ def cover_case(draw):
     if draw(st.integers(0, 2)) > 0:
         spec = densify_mutations(draw, spec)
     n = len(spec["nodes"])
-    smode = draw(st.sampled_from(["arbitrary"] * 4 + ["ancestor_closed"] * 4 + ["empty", "all"]))
-    if smode == "empty":
-        S = []
-    elif smode == "all":
-        S = list(range(n))
+    smode = ["separator"] * 5 + ["ancestor_closed", "ancestor_closed", "arbitrary", "empty", "all"]
+    smode = smode[draw(st.integers(0, 9))]
+    if smode == "separator":
+        # three-way colouring; every X-Y conflict (an edge, or an individual no node of S refers to)
+        # is resolved by moving a node into S
+        side = [draw(st.integers(0, 2)) for _ in range(n)]  # 0: S, 1: X, 2: Y
+        changed = True
+        while changed:
+            changed = False
+            for e in spec["edges"]:
+                if {side[e[2]], side[e[3]]} == {1, 2}:
+                    side[e[2]] = 0
+                    changed = True
+            by_ind = {}
+            for u in range(n):
+                if spec["nodes"][u][3] != -1:
+                    by_ind.setdefault(spec["nodes"][u][3], []).append(u)
+            for us in by_ind.values():
+                sides = {side[u] for u in us}
+                if 0 not in sides and sides == {1, 2}:
+                    side[us[0]] = 0
+                    changed = True
+        S = [u for u in range(n) if side[u] == 0]
+        X = [u for u in range(n) if side[u] == 1]
+        Y = [u for u in range(n) if side[u] == 2]
+        inS = set(S)
     else:
-        S = [u for u in range(n) if draw(st.integers(0, 3)) == 0]
-        if smode == "ancestor_closed":
-            inS = set(S)
-            changed = True
-            while changed:
-                changed = False
-                for e in spec["edges"]:
-                    if e[3] in inS and e[2] not in inS:
-                        inS.add(e[2])
-                        changed = True
-            S = sorted(inS)
-    comp = _components(spec, S)
-    bits = [draw(st.booleans()) for _ in range(n)]
-    inS = set(S)
-    X = [u for u in range(n) if u not in inS and bits[comp[u]]]
-    Y = [u for u in range(n) if u not in inS and not bits[comp[u]]]
+        if smode == "empty":
+            S = []
+        elif smode == "all":
+            S = list(range(n))
+        else:
+            S = [u for u in range(n) if draw(st.integers(0, 3)) == 0]
+            if smode == "ancestor_closed":
+                inS = set(S)
+                changed = True
+                while changed:
+                    changed = False
+                    for e in spec["edges"]:
+                        if e[3] in inS and e[2] not in inS:
+                            inS.add(e[2])
+                            changed = True
+                S = sorted(inS)
+        comp = _components(spec, S)
+        mask = draw(st.integers(0, 2 ** n - 1))
+        bits = [bool((mask >> u) & 1) for u in range(n)]
+        inS = set(S)
+        X = [u for u in range(n) if u not in inS and bits[comp[u]]]
+        Y = [u for u in range(n) if u not in inS and not bits[comp[u]]]
     permA = list(draw(st.permutations(list(range(n)))))
     permB = list(draw(st.permutations(list(range(n))))) if draw(st.booleans()) else list(range(n))
     inA = inS | set(X)
@@ -339,14 +368,15 @@ def cover_case(draw):
         inds.append([r[0], r[1], par, r[3]])
     spec = dict(spec)
     spec["individuals"] = inds
-    scenario = draw(st.sampled_from(["inverse"] * 5 + ["free"] * 3 + ["edited"] * 2))
+    scenario = ["edited", "edited", "free", "free", "free", "inverse", "inverse", "inverse", "inverse",
+                "inverse"][draw(st.integers(0, 9))]
     if scenario == "inverse":
         add_pop, reorderA, reorderB, edit = False, False, False, 0
     else:
         add_pop = draw(st.sampled_from([None, True, False]))
         reorderA = draw(st.sampled_from([False, True]))
         reorderB = draw(st.sampled_from([False, True]))
-        edit = draw(st.integers(1, 7)) if scenario == "edited" else 0
+        edit = draw(st.integers(1, 8)) if scenario == "edited" else 0
     return dict(spec=spec, smode=smode, scenario=scenario, S=S, X=X, Y=Y, orderA=orderA, orderB=orderB,
                 check=draw(st.sampled_from([None, True, True, False])),
                 add_pop=add_pop, reorderA=reorderA, reorderB=reorderB,
@@ -549,7 +579,19 @@ def run_union(case, ctx):
     mapping = [posA[u] if u in inS else -1 for u in orderB]
     # optional edit of the shared part on one side
     edit = None
-    if case["edit"]:
+    if case["edit"] == 8:
+        # two shared nodes of different age exchange their partners in the node mapping
+        ks = [k for k, u in enumerate(orderB) if u in inS]
+        pairs = [(k1, k2) for k1 in ks for k2 in ks
+                 if k1 < k2 and spec["nodes"][orderB[k1]][1] != spec["nodes"][orderB[k2]][1]]
+        if pairs:
+            k1, k2 = pairs[case["edit_pick"] % len(pairs)]
+            mapping[k1], mapping[k2] = mapping[k2], mapping[k1]
+            edit = f"mapping of {k1} and {k2} exchanged"
+            ctx.label("mapping_exchanged")
+            if not check:
+                return  # without the check the result of a wrong mapping is not defined
+    elif case["edit"]:
         if case["edit_side"] == "A":
             edit = apply_edit(tskit, A, {posA[u] for u in S}, case["edit"], case["edit_pick"])
         else:
@@ -611,8 +653,6 @@ def run_union(case, ctx):
         U = call()
     except tskit.LibraryError as e:
         if predicted and "TSK_ERR_MUTATION_PARENT_AFTER_CHILD" in str(e):
-            if os.environ.get("VF_C14_DEV_TOLERATE"):
-                return
             ctx.fail(WHAT_PAC, f"{e}; S={S} X={X} Y={Y} orderA={orderA} orderB={orderB}")
         raise
     U.tree_sequence()  # valid
@@ -718,9 +758,21 @@ PROBES = {
 NT_SUBSET = "the node list is not the identity and an edge, mutation, site or individual is dropped"
 NT_UNION = "Y is non-empty and at least one of S, X is non-empty (something is added to a non-empty self)"
 SUBCHECKS = [
-    SubCheck("C14.subset", run_subset, strategy=subset_case, quick=3000, thorough=90000, rule=NT_SUBSET),
+    SubCheck("C14.subset", run_subset, strategy=subset_case, quick=3000, thorough=90000, rule=NT_SUBSET,
+             floors={"nodes:perm": 0.05, "nodes:sublist": 0.1, "nodes:subset_sorted": 0.03, "nodes:empty": 0.03,
+                     "nodes:single": 0.03, "nodes:identity": 0.1, "drop_edge": 0.2, "drop_mut": 0.12,
+                     "drop_site": 0.1, "drop_ind": 0.1, "drop_pop": 0.08, "parent_cut": 0.015,
+                     "ind_parent_cut": 0.025, "remove_unreferenced=F": 0.1, "reorder_populations=F": 0.1,
+                     "via:tables": 0.15, "multi_tree": 0.2, "mutations": 0.3}),
     SubCheck("C14.union", run_union, strategy=cover_case, quick=3000, thorough=90000, rule=NT_UNION,
-             classify=classify),
+             classify=classify,
+             floors={"cover:S,X,Y non-empty": 0.12, "cover:mutations on S,X,Y": 0.04, "inverse_law": 0.15,
+                     "refused": 0.04, "edited": 0.06, "new_individuals": 0.05, "new_populations": 0.03,
+                     "site_deduplicated": 0.08, "check_shared_equality=F": 0.08, "add_populations=F": 0.2,
+                     "S:separator": 0.2, "S:ancestor_closed": 0.04, "S:arbitrary": 0.02, "via:tables": 0.15,
+                     "known_mut_times": 0.1}),
     SubCheck("C14.refusals", run_refusal, strategy=refusal_case, quick=400, thorough=8000,
-             rule="every case: out-of-range node ids, migrations, or an invalid node mapping must raise"),
+             rule="every case: out-of-range node ids, migrations, or an invalid node mapping must raise",
+             floors={"kind:subset_oob": 0.03, "kind:subset_migrations": 0.03, "kind:union_bad_map": 0.02,
+                     "kind:union_migrations_other": 0.03}),
 ]
